@@ -6,9 +6,10 @@ import OjgVerif.Gen.JpOps
 The objects `jp.Expr`, `jp.Equation`, `jp.Script`/`jp.Filter` as the public constructors of
 `jp/build.go` and `jp/equation.go` can build them, and as `jp/parse.go` builds them.
 
-* `Frag` — one fragment. `Bracket` (a display flag, not a selector) and `Proc` (needs a compiled
-  procedure) are left out: *formalisation choice*, the property lists root, current, child, index,
-  wildcard, descent, union, slice and filter.
+* `Frag` — one fragment. `Proc` (needs a compiled procedure) is left out: *formalisation choice*, the
+  property lists root, current, child, index, wildcard, descent, union, slice and filter. `Bracket` (a
+  display flag, not a selector, never built by the parser) is not a constructor here; expressions with
+  flags are modelled in `Bracket.lean` as `Option Frag` lists.
 * `Item`/template — a `Script` is its `template []any`: the equation in prefix form.
 * `Val` — a constant of an equation. A `float64` is carried as the decimal TEXT
   `strconv.FormatFloat(f,'g',-1,64)` gives for it / the text the parser hands to `strconv.ParseFloat`
